@@ -116,6 +116,7 @@ is proved for all strings and bounds. -/
 
 section floats
 open Percival.Spec.FloatNumeral Percival.Model.Strtod Percival.Model.ParsenumFloat Percival.Proofs.ParsenumFloat
+open Percival.Spec.Ieee (Fl)
 
 /-- Success with `v` exactly when the string is a floating numeral whose `double` value lies within the
     bounds (no overflow / underflow reported), `v` being that value stored into the target. -/
